@@ -208,6 +208,35 @@ let handle cmd args =
       (match crash_violation tr (nat_of_int (int_of_string ver)) with
        | None -> "OK"
        | Some (j, k) -> "BAD " ^ string_of_int (int_of_nat j) ^ " " ^ string_of_int (int_of_nat k))
+  | "confpats", [file; home] ->
+      (* the patterns parse_config hands to the regcomp oracle when every one of them is accepted *)
+      let pats = ref [] in
+      let ok p = (pats := (hex p.p_src ^ ":" ^ (if p.p_icase then "1" else "0")) :: !pats; true) in
+      ignore (parse_config (unhex home) ok (unhex file));
+      if !pats = [] then "-" else String.concat "," (List.rev !pats)
+  | "conf", file :: home :: rest ->
+      (* config_parse: rest = the patterns regcomp rejects, as <hex>:<0|1 icase> *)
+      let invalid = match rest with [] | ["-"] -> [] | [l] -> List.map (fun e ->
+          match String.split_on_char ':' e with [h; i] -> (unhex h, i = "1") | _ -> failwith "inv") (String.split_on_char ',' l)
+        | _ -> failwith "conf args" in
+      let ok p = not (List.mem (p.p_src, p.p_icase) invalid) in
+      let strs l = "[" ^ String.concat "," (List.map hex l) ^ "]" in
+      let lu p = (if p.p_lcase then "l" else "") ^ (if p.p_ucase then "u" else "") in
+      let b01 b = if b then "1" else "0" in
+      let rec d = function
+        | QBlock None -> "B()" | QBlock (Some e) -> "B(" ^ d e ^ ")"
+        | QOr (l, r) -> "O(" ^ d l ^ "," ^ d r ^ ")" | QAnd (l, r) -> "A(" ^ d l ^ "," ^ d r ^ ")"
+        | QMatch (c, a) -> "M(" ^ d c ^ "," ^ d a ^ ")" | QNeg e -> "N(" ^ d e ^ ")" | QAttachment e -> "T(" ^ d e ^ ")"
+        | QBody p -> "b:" ^ lu p | QHeader (k, p) -> "h:" ^ lu p ^ strs k
+        | QDate (f, gt, age) -> "d" ^ string_of_int (int_of_n f) ^ (if gt then ">" else "<") ^ string_of_int (int_of_n age)
+        | QNew -> "n" | QOld -> "o" | QAll -> "a" | QStat p -> "s" ^ strs [p] | QCommand l -> "c" ^ strs l
+        | QBreak -> "k" | QMove p -> "m" ^ strs [p] | QFlag s -> "f" ^ strs [s] | QFlags s -> "F" ^ strs [s] | QDiscard -> "x"
+        | QLabel l -> "l" ^ strs l | QPass -> "p" | QReject -> "r" | QExec (s, b, l) -> "e" ^ b01 s ^ b01 b ^ strs l
+        | QAttBlock b -> "K(" ^ d b ^ ")" | QAddHeader (k, v) -> "H[" ^ hex k ^ "," ^ hex v ^ "]" in
+      (match parse_config (unhex home) ok (unhex file) with
+       | Rejected -> "E"
+       | OutOfFuel -> "FUEL"
+       | Accepted cs -> "OK " ^ String.concat ";" (List.map (fun c -> "C" ^ strs c.c_paths ^ "{" ^ d c.c_expr ^ "}") cs))
   | "inspect", [loc; prefix; key; v; ms] ->
       (* expr_inspect for one entry: lines as hex, comma separated ("-" = no line) *)
       let mbw = if loc = "utf8" then mbw_utf8 else mbw_c in
